@@ -7,7 +7,10 @@ import (
 	"errors"
 	"fmt"
 	"io"
+	"mime"
+	"mime/multipart"
 	"net/http"
+	"net/url"
 	"strconv"
 	"strings"
 	"sync"
@@ -41,6 +44,8 @@ type Fault struct {
 //	drop-query  the query parameter named Arg is removed in flight
 //	flip        the byte at wire offset At of the request is XORed with 0x20 (unstructured corruption)
 //	append      a re-framing intermediary forwards the request with Arg appended to the body (framing stays valid)
+//	drop-field  a re-framing intermediary loses the form field / multipart part named Arg
+//	dup-field   a re-framing intermediary repeats the form field / multipart part named Arg
 
 type callKey struct{}
 
@@ -246,8 +251,18 @@ func (t *SimTransport) attempt(req *http.Request, ci *callInfo, name string, att
 		defer close(writeDone)
 		var err error
 		if kind == "append" && req.Body != nil && req.Body != http.NoBody {
-			err = reframe(req, wire, []byte(f.Arg))
+			err = reframe(req, wire, func(ct string, body []byte) ([]byte, bool) { return append(body, f.Arg...), true })
 			ci.Rec.fire()
+		} else if (kind == "drop-field" || kind == "dup-field") && req.Body != nil && req.Body != http.NoBody {
+			applied := false
+			err = reframe(req, wire, func(ct string, body []byte) ([]byte, bool) {
+				nb, ok := editFields(ct, body, f.Arg, kind == "dup-field")
+				applied = ok
+				return nb, ok
+			})
+			if applied {
+				ci.Rec.fire()
+			}
 		} else {
 			err = req.Write(wire) // closes req.Body
 		}
@@ -376,9 +391,9 @@ func (t *SimTransport) attempt(req *http.Request, ci *callInfo, name string, att
 	}
 }
 
-// reframe is a buffering intermediary: it receives the whole request, appends extra bytes to the body and
-// forwards it with a consistent Content-Length.
-func reframe(req *http.Request, wire io.Writer, extra []byte) error {
+// reframe is a buffering intermediary: it receives the whole request, edits the body and forwards it with
+// a consistent Content-Length.
+func reframe(req *http.Request, wire io.Writer, edit func(contentType string, body []byte) ([]byte, bool)) error {
 	var buf bytes.Buffer
 	if err := req.Write(&buf); err != nil {
 		return err
@@ -391,13 +406,74 @@ func reframe(req *http.Request, wire io.Writer, extra []byte) error {
 	if err != nil {
 		return err
 	}
-	body = append(body, extra...)
+	if nb, ok := edit(r2.Header.Get("Content-Type"), body); ok {
+		body = nb
+	}
 	r2.Body = io.NopCloser(bytes.NewReader(body))
 	r2.ContentLength = int64(len(body))
 	r2.TransferEncoding = nil
 	r2.URL.Scheme, r2.URL.Host = "http", r2.Host
 	r2.RequestURI = ""
 	return r2.Write(wire)
+}
+
+// editFields drops or repeats one field of a form-urlencoded body or one part of a multipart body. It reports
+// false when the body has no such field (then nothing was damaged).
+func editFields(contentType string, body []byte, name string, dup bool) ([]byte, bool) {
+	mt, params, err := mime.ParseMediaType(contentType)
+	if err != nil {
+		return nil, false
+	}
+	switch mt {
+	case "application/x-www-form-urlencoded":
+		var out []string
+		found := false
+		for _, pair := range strings.Split(string(body), "&") {
+			k, _, _ := strings.Cut(pair, "=")
+			if uk, err := url.QueryUnescape(k); err == nil && uk == name {
+				found = true
+				if dup {
+					out = append(out, pair, pair)
+				}
+				continue
+			}
+			out = append(out, pair)
+		}
+		return []byte(strings.Join(out, "&")), found
+	case "multipart/form-data":
+		mr := multipart.NewReader(bytes.NewReader(body), params["boundary"])
+		var nb bytes.Buffer
+		mw := multipart.NewWriter(&nb)
+		if err := mw.SetBoundary(params["boundary"]); err != nil {
+			return nil, false
+		}
+		found := false
+		for {
+			p, err := mr.NextRawPart()
+			if err != nil {
+				break
+			}
+			data, _ := io.ReadAll(p)
+			n := 1
+			if p.FormName() == name {
+				found = true
+				n = 0
+				if dup {
+					n = 2
+				}
+			}
+			for i := 0; i < n; i++ {
+				w, err := mw.CreatePart(p.Header)
+				if err != nil {
+					return nil, false
+				}
+				_, _ = w.Write(data)
+			}
+		}
+		_ = mw.Close()
+		return nb.Bytes(), found
+	}
+	return nil, false
 }
 
 type flipWriter struct {
